@@ -199,3 +199,50 @@ theorem groupsAsStable_iff (adj : List (List Nat)) (hwf : WFAdj adj) (labels : L
       rw [hf]; simpa using e
 
 end SkNet.WL
+
+namespace SkNet.WL
+
+attribute [-simp] List.getD_eq_getElem?_getD
+
+variable {H : Type} {ops : HashOps H}
+
+/-- rows are the same multisets of neighbours, stored in possibly different orders -/
+def SameRows (adj adj' : List (List Nat)) : Prop :=
+  adj.length = adj'.length ∧ ∀ i, i < adj.length → (adj.getD i []).Perm (adj'.getD i [])
+
+theorem triples_sameRows (hx : ExactOps ops) {adj adj' : List (List Nat)} (h : SameRows adj adj') (labels : List Nat) :
+    triples ops adj labels = triples ops adj' labels := by
+  unfold triples
+  rw [← h.1]
+  unfold tab
+  apply List.map_congr_left
+  intro i hi
+  have hp := (h.2 i (List.mem_range.1 hi)).map fun j => labels.getD j 0
+  rw [(hx.hash_iff _ _).2 hp]
+
+theorem round_sameRows (hx : ExactOps ops) {adj adj' : List (List Nat)} (h : SameRows adj adj') (labels : List Nat) :
+    round ops adj labels = round ops adj' labels := by
+  unfold round roundAssign
+  rw [triples_sameRows hx h labels, h.1]
+
+theorem coloring_sameRows (hx : ExactOps ops) {adj adj' : List (List Nat)} (h : SameRows adj adj') :
+    ∀ k labels ch, coloring ops adj k labels ch = coloring ops adj' k labels ch := by
+  intro k
+  induction k with
+  | zero => intro labels ch; rfl
+  | succ k ih =>
+    intro labels ch
+    unfold coloring
+    cases ch with
+    | false => rfl
+    | true =>
+      simp only [if_true]
+      rw [round_sameRows hx h labels]
+      exact ih _ _
+
+theorem colorWL_sameRows (hx : ExactOps ops) {adj adj' : List (List Nat)} (h : SameRows adj adj')
+    (maxIter : Option Nat) : colorWL ops adj maxIter = colorWL ops adj' maxIter := by
+  unfold colorWL
+  simp only [coloring_sameRows hx h, h.1]
+
+end SkNet.WL
